@@ -466,7 +466,9 @@ func runC05(c *Ctx) {
 					plans = append(plans, p)
 				}
 				tuns := StartTunnels(c, plans)
-				c.S.Run(func() bool { return (tuns[0].SentAll() || tuns[0].Client.Failed != "") && (tuns[1].SentAll() || tuns[1].Client.Failed != "") }, 8000, 30*time.Second)
+				c.S.Run(func() bool {
+					return (tuns[0].SentAll() || tuns[0].Client.Failed != "") && (tuns[1].SentAll() || tuns[1].Client.Failed != "")
+				}, 8000, 30*time.Second)
 				c.S.Run(nil, 400, 3*time.Second)
 				for k, t := range tuns {
 					log = append(log, fmt.Sprintf("%s[%d]%s->reached=%v", what, k, fault, t.Client.Ready))
